@@ -12,7 +12,7 @@ dictionaries (G3).
 Not decided: equality of copied content.
 """
 import facts as F
-from cfg import CFG
+from cfg import CFG, ccp_reachable
 from flow import Flow, call_sites, arg_local, last_seg, PASS_LAST
 from tables import enum_switches, exclusive_regions, region_calls, arm_regions
 from sym import PathSym, enum_paths, feasible, walk, show
@@ -233,6 +233,52 @@ def rule_kinds(ctx, f):
                     got["old"] |= g2["old"]
                     got["new"] |= g2["new"]
         touched_all |= got["old"] & got["new"]
+        # what is stored under the name: the deep clone of what the source map holds, stored when the name is NOT yet in the new map
+        def copies(body, blocks):
+            bfl = Flow(body)
+            out = []
+            blocks = set(blocks)
+            for r in sorted(blocks):
+                t = body["blocks"][r]["term"]
+                if t["k"] != "call" or last_seg(F.callee_name(t)) != "insert" or "HashMap" not in F.callee_name(t) or len(t["args"]) < 3:
+                    continue
+                fs = set()
+                ml = arg_local(t, 0)
+                if ml is not None:
+                    bfl.origins(ml, fields=fs)
+                if want not in fs:
+                    continue
+                vl = arg_local(t, 2)
+                vats = bfl.origins(vl, passthrough=("branch", "from_residual", "unwrap", "into", "from", "map", "ok_or")) if vl is not None else []
+                dc = [a for a in vats if a[0] == "call" and (a[3].get("callee") == "object::DeepClone::deep_clone" or last_seg(a[1]) == "deep_clone")]
+                from_old = False
+                for a in dc:
+                    rl = arg_local(a[3], 0)
+                    fs2 = set()
+                    ra = bfl.origins(rl, fields=fs2) if rl is not None else []
+                    from_old = from_old or (want in fs2 and any(x[0] == "call" and last_seg(x[1]) == "get" for x in ra))
+                pol = True
+                for r2 in sorted(blocks):
+                    t2 = body["blocks"][r2]["term"]
+                    if t2["k"] == "call" and last_seg(F.callee_name(t2)) == "contains_key" and t2.get("dest") and t2.get("target") is not None:
+                        fs3 = set()
+                        if arg_local(t2, 0) is not None:
+                            bfl.origins(arg_local(t2, 0), fields=fs3)
+                        if want in fs3 and CFG(body).dominates(r2, r):
+                            pol = pol and r not in ccp_reachable(body, t2["target"], init={t2["dest"][0]: 1}) and r in ccp_reachable(body, t2["target"], init={t2["dest"][0]: 0})
+                out.append((t, bool(dc) and from_old, pol))
+            return out
+        cps = copies(b, reg) if opname in ents else []
+        for r, t in region_calls(b, reg):
+            if t.get("resolved_local") and any("Resources" in a["s"] for a in t.get("arg_tys", [])):
+                cb = f.body(t["resolved"])
+                if cb is not None:
+                    cps += copies(cb, range(len(cb["blocks"])))
+        for k_, (t_, deep, pol) in enumerate(cps):
+            ctx.check(deep, "C20-SIB", "deep_clone_op#%s.deep@%d" % (opname, k_), "the `%s` arm stores something other than the deep clone of the source document's %s entry "
+                      "(a plain clone keeps references that point into the source document)" % (opname, want), t_["span"], detail="insert(name, old.%s[name].deep_clone(cloner))" % want)
+            ctx.check(pol, "C20-SIB", "deep_clone_op#%s.when-missing@%d" % (opname, k_), "the `%s` arm copies the %s entry only when the name is already present in the new "
+                      "Resources (or on both sides of that test): a resource that was not copied yet never is" % (opname, want), t_["span"], detail="if !new.%s.contains_key(name) { copy }" % want)
         ok = want in got["old"] and want in got["new"] and opname in ents
         msg = "the `%s` operator names a %s resource, but deep_clone_op has no arm copying it (source maps read: %s, new maps written: %s): the imported page " \
               "refers to a resource it does not have" % (opname, want, sorted(got["old"]), sorted(got["new"]))
@@ -343,6 +389,15 @@ def rule_closure(ctx, f):
                     carrier = any(w in cp["locals"][l]["s"] for w in ("Primitive", "Dictionary", "Ref<", "MaybeRef", "Lazy", "Stream", "RcRef"))
                     if carrier and not via:
                         badf.append(fname)
+                    # inheritable attributes are taken through the page's inheriting accessor: the target document gets a fresh page tree, so
+                    # what the source page inherited from its /Pages ancestors has to be written into the page itself
+                    if fname in ("media_box", "crop_box", "resources"):
+                        eff = any(a[0] == "call" and last_seg(a[1]) == fname and "Page" in a[1] for a in ats) or \
+                            any(a[0] == "call" and last_seg(a[1]) == fname and "Page" in a[1] for a in cfl.origins(l)) or \
+                            (fname == "resources" and any(last_seg(F.callee_name(t0)) == "resources" and "Page" in F.callee_name(t0) for _, t0 in F.calls(cp)))
+                        ctx.check(eff, "C20-G1", "PageBuilder::clone_page#effective-" + fname, "the imported page gets the source page's own /%s entry, not the effective one "
+                                  "(Page::%s() looks at the ancestors too): a value the page inherited is lost in the target document" % (fname, fname), cp["span"],
+                                  detail="%s <- page.%s()" % (fname, fname))
         ctx.floor("C20-G1", nf, 8, "attributes of the page assembled by clone_page")
         ctx.check(not badf, "C20-G1", "PageBuilder::clone_page#fields", "the attributes %s of the imported page are not deep-cloned: references in them keep the object numbers of "
                   "the source document" % badf, cp["span"], detail="every attribute via deep_clone")
